@@ -45,6 +45,9 @@ func (r *BasicPublicTokenRequest) Marshal() []byte {
 }
 
 func (r *BasicPublicTokenRequest) Unmarshal(data []byte) bool {
+	// the cached encoding belongs to the previous contents
+	r.raw = nil
+
 	s := cryptobyte.String(data)
 
 	var tokenType uint16
